@@ -67,6 +67,8 @@ def build(force_full=False):
         res.gen = gen_tables.emit()
         import gen_antlr
         res.antlr = gen_antlr.emit()       # tucanParser.py -> coq/gen/Antlr.v (fail-closed translator)
+        import gen_antlr_lexer
+        res.antlr_lexer = gen_antlr_lexer.emit()   # serialized lexer ATN of tucanLexer.py -> coq/gen/AntlrLexer.v
         if not os.path.exists(os.path.join(COQ, "Makefile")) or \
                 os.path.getmtime(os.path.join(COQ, "Makefile")) < os.path.getmtime(os.path.join(COQ, "_CoqProject")):
             sh("coq_makefile -f _CoqProject -o Makefile", cwd=COQ, timeout=120)
